@@ -47,6 +47,11 @@ type flushGate struct {
 	ops      []string
 	parked   chan string
 	release  chan struct{}
+	// fault cases (flushfault.go): the faultN-th (0-based) operation of kind faultKind fails once
+	faultKind string
+	faultN    int
+	faultLate bool   // the operation is executed and its failure is reported afterwards (else it is not executed)
+	fired     string // label of the operation that was made to fail
 }
 
 // parkPoint names one step of a flush: the n-th operation (0-based, counted over the whole flush) of a kind
@@ -120,6 +125,7 @@ func (g *flushGate) arm(pt parkPoint) {
 	g.mu.Lock()
 	g.gid = curGID()
 	g.parkKind, g.parkN = pt.kind, pt.n
+	g.faultKind, g.faultN, g.faultLate, g.fired = "", 0, false, ""
 	g.ops = nil
 	g.seen = map[string]int{}
 	g.parked = make(chan string, 1)
@@ -143,9 +149,20 @@ func (g *flushGate) Do(label string, op func() error) error {
 	kind := opKind(label)
 	g.ops = append(g.ops, kind)
 	park := kind == g.parkKind && g.seen[kind] == g.parkN
+	fault := g.faultKind != "" && kind == g.faultKind && g.seen[kind] == g.faultN && g.fired == ""
+	late := g.faultLate
+	if fault {
+		g.fired = label
+	}
 	g.seen[kind]++
 	parked, release := g.parked, g.release
 	g.mu.Unlock()
+	if fault {
+		if late {
+			_ = op()
+		}
+		return &injectedFault{label: label, late: late}
+	}
 	if park {
 		parked <- kind
 		<-release
@@ -173,6 +190,17 @@ type parkCase struct {
 	roundHosts   []string // host values of the running round (immutable while the flush is parked)
 	dcs          []string
 	uidSeq       int
+	// fault cases: counter prefix and the (family, step kind) of the fault of the running round
+	ctr      string
+	faultTag string
+}
+
+// cn names a counter of the case family (park_... / fault_...).
+func (p *parkCase) cn(name string) string {
+	if p.ctr == "" {
+		return "park_" + name
+	}
+	return p.ctr + "_" + name
 }
 
 const parkMetric = "pm"
@@ -186,7 +214,12 @@ func (p *parkCase) logf(format string, args ...interface{}) {
 	fmt.Println(time.Now().Format("15:04:05.000"), p.caseID, s)
 }
 
-func (p *parkCase) class(what string) string { return "C10/flush-parked/" + p.target + "/" + what }
+func (p *parkCase) class(what string) string {
+	if p.faultTag != "" {
+		return "C10/flush-fault/" + p.target + "/" + p.faultTag + "/" + what
+	}
+	return "C10/flush-parked/" + p.target + "/" + what
+}
 
 func (p *parkCase) write(metric string, tagSets ...map[string]string) bool {
 	var pts []node.Point
@@ -217,12 +250,17 @@ func (p *parkCase) written(metric string) []*seriesSpec {
 
 // expect asks one query and compares with the predicate evaluated on every written series of the metric.
 func (p *parkCase) expect(c *chain, group []string, what string) bool {
-	written := p.written(parkMetric)
+	return p.expectM(parkMetric, c, group, what)
+}
+
+// expectM is expect for any metric of the case.
+func (p *parkCase) expectM(metric string, c *chain, group []string, what string) bool {
+	written := p.written(metric)
 	timeCond := fmt.Sprintf("time >= '%s' and time <= '%s'", node.FormatTime(p.t0), node.FormatTime(p.t0+3599_000))
-	text := buildSQL(parkMetric, c, group, timeCond, rand.New(rand.NewSource(int64(p.res.Evals))))
+	text := buildSQL(metric, c, group, timeCond, rand.New(rand.NewSource(int64(p.res.Evals))))
 	o := observe(p.cl.Query(text), group)
 	p.res.Evals++
-	p.res.count("park_queries."+p.phase, 1)
+	p.res.count(p.cn("queries."+p.phase), 1)
 	if o.Bad != "" {
 		p.res.Notes = append(p.res.Notes, "watchdog: "+o.Bad+" "+text)
 		return true
@@ -234,11 +272,11 @@ func (p *parkCase) expect(c *chain, group []string, what string) bool {
 	}
 	df := compare(exp, o)
 	if o.Err != "" && len(exp) == 0 && strings.Contains(o.Err, "not found") {
-		p.res.count("park_queries_matching_the_oracle", 1)
+		p.res.count(p.cn("queries_matching_the_oracle"), 1)
 		return true
 	}
 	if o.Err == "" && df.empty() {
-		p.res.count("park_queries_matching_the_oracle", 1)
+		p.res.count(p.cn("queries_matching_the_oracle"), 1)
 		return true
 	}
 	tok := "all"
@@ -251,6 +289,9 @@ func (p *parkCase) expect(c *chain, group []string, what string) bool {
 	}
 	if len(group) != 1 || group[0] != "uid" {
 		tok = "groupby"
+	}
+	if metric != parkMetric {
+		tok = "other-metric"
 	}
 	kind := df.kind()
 	if o.Err != "" {
@@ -286,7 +327,7 @@ func (p *parkCase) tagKeyID(key string) (tag.KeyID, bool) {
 func (p *parkCase) checkIDs(key string, values []string) {
 	kid, ok := p.tagKeyID(key)
 	if !ok {
-		p.res.count("park_tag_key_not_resolved", 1)
+		p.res.count(p.cn("tag_key_not_resolved"), 1)
 		return
 	}
 	meta := p.n.DB.MetaDB()
@@ -305,7 +346,7 @@ func (p *parkCase) checkIDs(key string, values []string) {
 			p.idSeen[k] = where
 			continue
 		}
-		p.res.count("park_tag_value_ids_compared."+p.phase, 1)
+		p.res.count(p.cn("tag_value_ids_compared."+p.phase), 1)
 		if old != id {
 			p.res.violation(p.class(p.phase+"/written-tag-value-got-a-second-id"),
 				fmt.Sprintf("%s %s: the written tag value %s=%q had id %d (%s) and is given id %d now: the dictionary no longer finds it, series written from now on carry another identity of the same value",
